@@ -225,7 +225,10 @@ def check_case(case: dict) -> Outcome:
             out.fail(sig(f"C06:transformed:reload-failed:{_tclass(case['transform'])}"), f"{case['transform']}: to_dict() gave {d1.get('detection')!r} which fails to load/convert: {e}")
             return out
         if not _same_meaning(q2, q_obj):
-            out.fail(sig(f"C06:transformed:queries-changed:{_tclass(case['transform'])}") + (":after-failed-transformation" if failed_half_way else ""),
+            s_ = sig(f"C06:transformed:queries-changed:{_tclass(case['transform'])}")
+            # a recorded root cause (plain form of backslashes) keeps its signature; everything else that shows only after a
+            # failed transformation is a finding of its own
+            out.fail(s_ + (":after-failed-transformation" if failed_half_way and s_.startswith("C06:transformed:") else ""),
                      f"{case['transform']}: transformed object converts to {q_obj}, its to_dict() {d1.get('detection')!r} reloads to {q2}")
         return out
 
